@@ -63,6 +63,8 @@ type jpFrame struct {
 	idx         int // shadow attempt index (-1: not an indexed frame)
 	callLike    bool
 	hostRoot    bool // the frame itself is the host's re-entrant call (its descendants are ordinary)
+	pendingCall bool // the last instruction of this frame was a CALL that has not been followed by anything yet
+	announcedAs byte // non-zero when a frame opened by a CALL instruction was announced as another call kind
 }
 
 // ownChildren counts the frames issued by this frame's own instructions (host re-entrant calls excluded).
@@ -119,6 +121,16 @@ func (m *jpMonitor) frames(sh *shadowLog) (roots []*jpFrame, stray []string) {
 				f.idx = ix
 			}
 			f.callLike = (e.K == h.KStart && !e.Create) || (e.K == h.KEnter && e.Typ == h.CALL)
+			if e.K == h.KEnter && cur != nil && cur.last != nil && cur.last.Op == h.CALL && cur.pendingCall {
+				// what counts is the instruction the program executed: a CALL is a message call however the VM announces it
+				f.callLike = true
+				if e.Typ != h.CALL {
+					f.announcedAs = e.Typ
+				}
+			}
+			if cur != nil {
+				cur.pendingCall = false
+			}
 			f.hostRoot = f.info.host && (cur == nil || !cur.info.host)
 			if cur != nil {
 				cur.children = append(cur.children, f)
@@ -140,6 +152,7 @@ func (m *jpMonitor) frames(sh *shadowLog) (roots []*jpFrame, stray []string) {
 					cur.first = e
 				}
 				cur.last = e
+				cur.pendingCall = e.Op == h.CALL && e.Err == ""
 			}
 			curFiring = nil
 		case h.KFault:
